@@ -45,8 +45,11 @@ func handleSchema(definition *ast.Document) error {
 		queryNodeRef = definition.ImportObjectTypeDefinition("Query", "", nil, nil)
 	}
 
+	// the default root operation type names only apply when the schema definition is omitted;
+	// a query root is needed in any case, it carries the introspection fields
+	hasSchemaDefinition := definition.HasSchemaDefinition()
 	addSchemaDefinition(definition)
-	addMissingRootOperationTypeDefinitions(definition)
+	addMissingRootOperationTypeDefinitions(definition, !hasSchemaDefinition)
 	addIntrospectionQueryFields(definition, queryNodeRef)
 
 	typeNamesVisitor := NewTypeNameVisitor()
@@ -63,7 +66,7 @@ func addSchemaDefinition(definition *ast.Document) {
 	definition.AddSchemaDefinitionRootNode(schemaDefinition)
 }
 
-func addMissingRootOperationTypeDefinitions(definition *ast.Document) {
+func addMissingRootOperationTypeDefinitions(definition *ast.Document, useDefaultNames bool) {
 	var rootOperationTypeRefs []int
 
 	for i := range definition.RootNodes {
@@ -73,6 +76,8 @@ func addMissingRootOperationTypeDefinitions(definition *ast.Document) {
 			switch {
 			case bytes.Equal(typeName, ast.DefaultQueryTypeName):
 				rootOperationTypeRefs = createRootOperationTypeIfNotExists(definition, rootOperationTypeRefs, ast.OperationTypeQuery, i)
+			case !useDefaultNames:
+				continue
 			case bytes.Equal(typeName, ast.DefaultMutationTypeName):
 				rootOperationTypeRefs = createRootOperationTypeIfNotExists(definition, rootOperationTypeRefs, ast.OperationTypeMutation, i)
 			case bytes.Equal(typeName, ast.DefaultSubscriptionTypeName):
